@@ -556,7 +556,7 @@ class RemoteWorker(Worker, metaclass=RemoteWorkerMeta):
         self._aux_socket_my, self._aux_socket_ctrl = None, None
 
         try:
-            result = None
+            result = (False, None)
 
             if is_windows():
                 # Extra pair of sockets to release the backend of the persistent worker
